@@ -81,3 +81,59 @@ func sameRec(a, b map[string][]uint32) bool {
 	}
 	return true
 }
+
+
+// selftestRace: the -race build must report the one unsynchronised probe and
+// none of the synchronised ones (mutex, rwmutex, channel, waitgroup, once,
+// pool, timer), under several schedules each.
+func selftestRace() int {
+	rbin := buildBinary(true)
+	bad := 0
+	names := []string{"no synchronisation", "mutex", "rwmutex (writers)", "rwmutex (reader, writer)", "channel", "waitgroup", "once", "pool", "timer callback"}
+	for k := 0; k < len(names); k++ {
+		reported, runs := 0, 24
+		var mu sync.Mutex
+		sample := ""
+		parallel(runs, 8, func(i int) {
+			r := runSpec(rbin, RunSpec{Family: "raceprobe", Prop: "C04", Seed: splitmix(uint64(1000*k + i)), Case: k, Race: true}, 6_000_000+100*k+i)
+			n := 0
+			for _, rr := range parseRaces(r.stderr) {
+				if rr.lib {
+					n++
+					mu.Lock()
+					if sample == "" {
+						sample = rr.key
+					}
+					mu.Unlock()
+				}
+			}
+			mu.Lock()
+			if n > 0 {
+				reported++
+			}
+			if r.crashed || r.hang {
+				fmt.Printf("selftest race: probe %d seed %d did not complete\n%s\n", k, i, firstLines(r.stderr, 20))
+				bad++
+			}
+			mu.Unlock()
+		})
+		want := "none"
+		ok := reported == 0
+		if k == 0 {
+			want = "every run"
+			ok = reported == runs
+		}
+		st := "ok"
+		if !ok {
+			st = "FAIL"
+			bad++
+		}
+		fmt.Printf("selftest race: probe %d (%-24s): reported in %2d of %d runs, want %s: %s %s\n", k, names[k], reported, runs, want, st, sample)
+	}
+	if bad > 0 {
+		fmt.Println("race self-test FAILED")
+		return 2
+	}
+	fmt.Println("race self-test passed")
+	return 0
+}
